@@ -307,6 +307,15 @@ def d5_cadence(ctx):
             pay = fa.val_operand(t["args"][1], (bb, len(hk.blocks[bb]["stmts"])))
             if any(is_call(x, stable=KA) for x in walk(pay)):
                 sends.append((bb, t, pay))
+    # every send of a keepalive hands the socket the whole 38-byte array the builder returned (a prefix - say the 10-byte standard
+    # header - carries no telemetry and is not an extended keepalive)
+    for (sb_, st_, pay_) in sends:
+        v_ = strip_old(pay_)
+        while isinstance(v_, tuple) and v_ and (v_[0] in ("old", "deref") or (v_[0] == "cast" and not str(v_[1]).startswith(("u", "i", "f")))):
+            v_ = v_[1] if v_[0] != "cast" else v_[2]
+        ctx.chk.ob("D2", "a keepalive goes out as the whole frame keepalive_packet returned (no slicing)", is_call(v_, stable=KA),
+                   "sent %s" % show(pay_, hk.names)[:160], key="D2:whole-frame-sent", loc=st_.get("loc"))
+    ctx.chk.floor("D2", "keepalive send sites in housekeeping", len(sends), 2)
     ok = len(NK) == 1 and len(builds) >= 1
     first_build = None
     if ok:
